@@ -802,7 +802,7 @@ fn push_rule(r: &mut Rng, kind: &str) -> Value {
         "rule_id": match kind { "room" => ROOMS[0], "sender" => USERS[0], _ => ".org.example.rule" },
         "default": r.chance(1, 2),
         "enabled": r.chance(1, 2),
-        "actions": match r.below(6) { 0 => json!(["notify"]), 3 => json!(["dont_notify"]), 4 => json!(["coalesce"]), 5 => json!(["notify", "org.example.action", {"set_tweak": "highlight", "value": false}]), 1 => json!(["notify", {"set_tweak": "sound", "value": "default"}, {"set_tweak": "highlight"}]), _ => json!([]) },
+        "actions": match r.below(7) { 0 => json!(["notify"]), 3 => json!(["dont_notify"]), 4 => json!(["coalesce"]), 5 => json!(["notify", "org.example.action", {"set_tweak": "highlight", "value": false}]), 6 => json!(["notify", {"set_tweak": "org.example.tweak", "value": {"a": 1}}]), 1 => json!(["notify", {"set_tweak": "sound", "value": "default"}, {"set_tweak": "highlight"}]), _ => json!([]) },
     });
     if kind == "content" {
         rule["pattern"] = json!("al*ce");
